@@ -26,7 +26,8 @@ EXPLANATION = ("Static comparison of the Verilog printer with the reference simu
                "interpretation of the printer's branch structure over finite inputs (assignment kind x variable, operand "
                "signs, memory port mode x async_read x we x re), path order of the lowering pipeline in convert(), "
                "normal forms of printed ranges and literals.")
-TECHNIQUE = "dispatch-table comparison + decision-table extraction (finite abstract interpretation) + path order + normal forms"
+TECHNIQUE = ("dispatch-table comparison + path order + abstract interpretation of the printers (expression / statement / blo"
+             "ck printers interpreted by the checker's own evaluator on model trees, the returned text parsed and executed abstractly) + decision tables")
 
 VERILOG_ARITY = {"~": {1}, "+": {1, 2}, "-": {1, 2}, "*": {2}, "<<<": {2}, ">>>": {2}, "&": {1, 2}, "^": {1, 2}, "|": {1, 2},
                  "<": {2}, "<=": {2}, "==": {2}, "!=": {2}, ">": {2}, ">=": {2}, "m": {3}}
